@@ -241,7 +241,11 @@ def main(argv=None):
             merged.evals += out['evals']
             merged.nontrivial += out['nontrivial']
             merged.outcomes.update(out['outcomes'])
-            merged.extra.update(out['extra'])
+            for k_, v_ in out['extra'].items():
+                if k_.startswith('max_'):
+                    merged.extra[k_] = max(merged.extra[k_], v_)
+                else:
+                    merged.extra[k_] += v_
             merged.states += out['states']
             merged.transitions += out['transitions']
             merged.traces += out['traces']
